@@ -304,8 +304,10 @@ def check_C19(ctx):
     tla = S("gen", "Gen_VoiceSet_defs.tla")
     lab = label_table_json(ctx)
     cases = gen(ctx, "compat", _vs_cfg(ctx, "compat", "FamsA" if q else "FamsB", 2), tla, workers=8)
-    nerr = sum(1 for c in cases if not c["ok"])
-    replay_stage(ctx, "compat", "vset-replay", cases, extra_args=[lab], distinct_key=lambda c: json.dumps(c["kinds"]) + c["voices"][0]["header"][4] if c["voices"] else "empty")
+    nerr = sum(1 for c in cases if c["kind"] == "compat" and not c["ok"]) + sum(sum(1 for x in c["cases"] if not x["ok"]) for c in cases if c["kind"] == "field")
+    replay_stage(ctx, "compat", "vset-replay", cases, extra_args=[lab],
+                 distinct_key=lambda c: ("field:" + json.dumps(c["voice"]["header"][:6])) if c["kind"] == "field" else
+                 (json.dumps(c["kinds"]) + c["voices"][0]["header"][4] if c["voices"] else "empty"))
     if nerr == 0 or nerr == len(cases):
         raise ToolError("vacuous compatibility cases")
     for nv in ([2] if q else [2, 3]):
